@@ -18,7 +18,7 @@ using namespace pbt;
 enum { ACQ = 0, CALLOC = 1, REALLOC = 2, REL = 3, DUMP = 4, QUERY = 5, NKINDS = 6 };
 enum { R_GROW = 0, R_SHRINK = 1, R_SAME = 2, R_ZERO = 3, R_ANY = 4, R_FROM_NULL = 5, NMODES = 6 };
 static const size_t NS = 12;
-static const size_t MAXSZ = 40000;
+static const size_t MAXSZ = 80000;
 static const size_t FRAMES[] = {0, 1, 8, 200};
 
 static uint64_t gen_size() {
@@ -26,7 +26,7 @@ static uint64_t gen_size() {
     case 0:
         return one_of({1, 2, 3, 7, 8, 9, 15, 16, 17, 24, 31, 32, 33, 63, 64, 65, 100, 127, 128, 129, 255, 256, 257, 1000, 4095, 4096, 4097});
     case 1: return pick(1, 300);
-    default: return pick(1, 20000);
+    default: return chance(30) ? one_of({65535, 65536, 65537, 70000}) : pick(1, 20000);
     }
 }
 
@@ -213,12 +213,12 @@ static void run(const Case &c, Ctx &ctx) {
             size_t old = s[i].p ? s[i].size : 0;
             uint64_t a = op.arg(2, 1);
             size_t nsz;
-            if (!s[i].p) nsz = mode == R_ZERO ? 0 : (size_t)(1 + (a - 1) % 20000);
+            if (!s[i].p) nsz = mode == R_ZERO ? 0 : (size_t)(1 + (a - 1) % MAXSZ);
             else if (mode == R_GROW) nsz = old + 1 + (size_t)(a % 4 == 0 ? a % 20000 : a % 300);
             else if (mode == R_SHRINK) nsz = old > 1 ? 1 + (size_t)(a % (old - 1)) : old;
             else if (mode == R_SAME) nsz = old;
             else if (mode == R_ZERO) nsz = 0;
-            else nsz = (size_t)(1 + (a - 1) % 20000);
+            else nsz = (size_t)(1 + (a - 1) % MAXSZ);
             if (nsz > MAXSZ) nsz = MAXSZ;
             void *oldp = s[i].p, *p = s[i].p;
             uint32_t oldserial = s[i].serial;
